@@ -651,17 +651,153 @@ pub(crate) fn gen_val(rng: &mut Rng, t: T) -> V {
     }
 }
 
+/// n/4 as a float of the source type when it is exactly representable
+fn quarter(s: T, n: i128) -> Option<V> {
+    match s {
+        F32 => {
+            let x = n as f32 / 4.0;
+            if (x as f64) * 4.0 == n as f64 && (n as f64) as i128 == n {
+                Some(V::F32(x))
+            } else {
+                None
+            }
+        }
+        F64 => {
+            let x = n as f64 / 4.0;
+            if (x * 4.0) as i128 == n && x * 4.0 == (n as f64) && (n as f64) as i128 == n {
+                Some(V::F64(x))
+            } else {
+                None
+            }
+        }
+        _ => None,
+    }
+}
+
+/// Boundary values of one (source, target) pair: for integer sources the extremes ±1 of every
+/// integer type, small values and the values around 2^24 / 2^53 that need rounding (all roundings:
+/// down, up, tie to even up/down, carry); for float sources every quarter step within ±1 of the
+/// target's min−1, min, max, max+1, small quarters, powers of two up to the format limits, values
+/// that round when narrowed to f32, NaN, ±∞, ±0.
+fn sweep_values(s: T, d: T) -> Vec<V> {
+    let mut out: Vec<V> = Vec::new();
+    if !s.is_float() {
+        let mut xs: Vec<i128> = vec![-3, -2, -1, 0, 1, 2, 3];
+        for t in &ALL[0..9] {
+            let (lo, hi) = t.range();
+            xs.extend_from_slice(&[lo - 1, lo, lo + 1, hi - 1, hi, hi + 1]);
+        }
+        for p in [24u32, 53] {
+            let b: i128 = 1 << p;
+            for x in [b - 1, b, b + 1, b + 2, b + 3, 2 * b + 1, 2 * b + 2, 2 * b + 3, 2 * b + 6, 4 * b + 4, 4 * b + 12] {
+                xs.push(x);
+                xs.push(-x);
+            }
+        }
+        xs.sort();
+        xs.dedup();
+        for x in xs {
+            if in_range(s, x) {
+                out.push(V::I(x));
+            }
+        }
+        return out;
+    }
+    let mk = |x: f64| -> V {
+        if s == F32 {
+            V::F32(x as f32)
+        } else {
+            V::F64(x)
+        }
+    };
+    out.push(mk(f64::NAN));
+    out.push(mk(f64::INFINITY));
+    out.push(mk(f64::NEG_INFINITY));
+    out.push(mk(0.0));
+    out.push(mk(-0.0));
+    if !d.is_float() && d != Bool {
+        let (lo, hi) = d.range();
+        for b in [lo - 1, lo, hi, hi + 1] {
+            for k in -10..=10 {
+                if let Some(v) = quarter(s, 4 * b + k) {
+                    out.push(v);
+                }
+            }
+        }
+    }
+    for n in [-14, -13, -12, -10, -7, -6, -5, -4, -3, -2, -1, 1, 2, 3, 4, 5, 6, 7, 10, 12, 13, 14] {
+        if let Some(v) = quarter(s, n) {
+            out.push(v);
+        }
+    }
+    for k in [100, 126, 127, 128, 130, 200, -30, -126, -127, -140, -149, -150, -160, -1074] {
+        let x = 2f64.powi(k);
+        let ok = if s == F32 { (x as f32) as f64 == x && x != 0.0 } else { x != 0.0 && x.is_finite() };
+        if ok {
+            out.push(mk(x));
+            out.push(mk(-x));
+        }
+    }
+    if s == F32 {
+        out.push(V::F32(f32::MAX));
+        out.push(V::F32(f32::MIN));
+    } else {
+        out.push(V::F64(f64::from_bits(1)));
+        out.push(V::F64(-f64::from_bits(1)));
+    }
+    if s == F64 {
+        // values that round / overflow / underflow when narrowed to f32
+        for (m, e) in [
+            (16777217u64, 0i32),
+            (16777219, 0),
+            (33554434, 0),
+            (33554438, 0),
+            (16777217, 104),
+            (16777215, 104),
+            (16777217, -170),
+            (3, -150),
+            (1, -150),
+            (16777217, -173),
+        ] {
+            out.push(V::F64(m as f64 * 2f64.powi(e)));
+            out.push(V::F64(-(m as f64) * 2f64.powi(e)));
+        }
+    }
+    out
+}
+
 impl Prop for C06 {
     fn id(&self) -> &'static str {
         "C06"
     }
 
     fn gen(&self, rng: &mut Rng, n: usize, tier: Tier, out: &mut Vec<String>) {
-        // every ordered pair of the 11 types is visited round-robin so that a short run already
-        // touches all 121 arms for both operations
+        // 1. systematic sweep (small-scope enumeration): every ordered pair of the 11 types ×
+        //    both operations × the boundary values of the pair (see `sweep_values`); it comes first
+        //    so that a quick run reaches every arm of both tables independently of the seed
+        let mut cases = 0usize;
+        let mut cur = 0usize;
+        'sweep: for s in ALL {
+            for d in ALL {
+                for v in sweep_values(s, d) {
+                    for op in ["convert", "cast"] {
+                        if cur == 0 {
+                            if cases == n {
+                                break 'sweep;
+                            }
+                            out.push("reset".to_string());
+                            cases += 1;
+                        }
+                        out.push(format!("{} {} {} {}", op, s.name(), d.name(), show_op_val(v)));
+                        cur = (cur + 1) % 24;
+                    }
+                }
+            }
+        }
+        // 2. random, boundary-biased values; every pair is visited round-robin
         let per_case = if tier == Tier::Thorough { 16 } else { 8 };
         let mut k = rng.below(121) as usize;
-        for _ in 0..n {
+        for _ in cases..n {
             out.push("reset".to_string());
             for _ in 0..per_case {
                 let (s, d) = if rng.chance(3, 4) {
